@@ -78,7 +78,7 @@ fn statements(body: &[u8]) -> Vec<Vec<Item>> {
         let mut k = 0;
         while k+2 < st.len() {
             let lone = st[k]==Item::Ch(b'(') && matches!(st[k+1],Item::Name(_)) && st[k+2]==Item::Ch(b')');
-            let callee = k>0 && match &st[k-1] { Item::Name(_) => true, Item::Tok(t) => *t>=0xd2 || *t==FN || *t==0xc0 || *t==0xc3 || *t==0xd7, Item::Ch(b')') => true, _ => false };
+            let callee = k>0 && match &st[k-1] { Item::Name(_) => true, Item::Tok(t) => *t>=0xd2 || *t==FN || *t==0xc0 || *t==0xc3 || *t==0xd7, _ => false };   // after `)` a parenthesised name is a juxtaposed PRINT item, never a subscript
             if lone && !callee { st.remove(k+2); st.remove(k); k = k.saturating_sub(1); } else { k += 1; }
         }
     }
